@@ -79,6 +79,9 @@ def spelling_suite(run, rng, har, drv, stats, n):
             comps2 = list(comps)
             comps2[rng.randrange(len(comps2))] += "_"
             s2 = respell(rng, prefix, comps2)
+        if rng.random() < 0.25:
+            # the same with backslashes: canonicalisation treats `\` as a separator on every platform
+            s1, s2, canon = s1.replace("/", "\\"), s2.replace("/", "\\"), canon.replace("/", "\\")
         ctr = itertools.count()
         pad = lambda: "".join(rng.choice(["# c\n", "\n", "v = 1\n", "build other%d: r\n" % next(ctr)]) for _ in range(rng.randint(0, 3)))
         head = "rule r\n  command = c\n"
@@ -126,7 +129,7 @@ def spelling_suite(run, rng, har, drv, stats, n):
             run.tie("correspondence loader (respelled duplicate-output cases)", dict(where, model=m[:300]))
         msg = unhexs(a[4:]).decode("utf-8", "replace") if a.startswith("err ") else ""
         if same:
-            want = '%s:%d: "%s" is already an output at %s:%d' % (loc2[0], loc2[1], canon, loc1[0], loc1[1])
+            want = '%s:%d: "%s" is already an output at %s:%d' % (loc2[0], loc2[1], canon.replace("\\", "\\\\"), loc1[0], loc1[1])   # the name is printed with {:?}
             if not a.startswith("err "):
                 run.report_failure(None, "two statements produce %r under different spellings but the manifest was accepted" % canon, where)
             elif want not in msg:
